@@ -54,7 +54,7 @@ def up4_leg(ck, tier, seed, replay_case=None):
         return
     ck.tie("UP4 leg: harness builds and runs against the current tree", True)
     dist = ck.distribution if isinstance(ck.distribution, dict) else {}
-    n_failed_updates = n_markers = 0
+    n_failed_updates = n_markers = nconfirm = 0
     for c, o in zip(cases, outs):
         ck.count(["up4", c["input"]["cfg"]["end_marker"]] + [e.get("hex", e["k"]) + str(e.get("faults", "")) for e in c["input"]["events"]], True)
         for it, ob in zip(c["intents"], o.get("obs", [])):
@@ -64,11 +64,16 @@ def up4_leg(ck, tier, seed, replay_case=None):
                 n_markers += len(ob.get("pkts", []))
                 n_failed_updates += 1 if any(U.write_failed(w) for w in ob.get("writes", [])) else 0
         seen = set()
-        for sig, msg, i in U.mon_c14_up4(c, o):
-            sig = f"{c['tag']}:{sig}" if c.get("tag") else sig
+        for sig0, msg, i in U.mon_c14_up4(c, o):
+            sig = f"{c['tag']}:{sig0}" if c.get("tag") else sig0
             if sig in seen:
                 continue
             seen.add(sig)
+            if replay_case is None and not c.get("tag") and nconfirm < 10:
+                nconfirm += 1
+                if not U.confirmed(binary, c, sig0, U.mon_c14_up4):
+                    ck.notes["unconfirmed_failures"] = ck.notes.get("unconfirmed_failures", 0) + 1
+                    continue
             ob = o.get("obs", [])
             ck.fail(sig, f"UP4 {c['name']}: {msg}", {"leg": "up4", "tag": c.get("tag"), "name": c["name"], "input": c["input"], "intents": c["intents"], "event": i,
                                                      "impl_event": {k: v for k, v in (ob[i] if i < len(ob) else {}).items() if k not in ("tables", "up4", "store", "pools")}})
